@@ -83,8 +83,10 @@ def build(chk):
         subsets = [s for r in range(1, d) for s in itertools.combinations(labels, r)]
         for sub in subsets:
             for order in itertools.permutations(sub):
-                for container in ('dict', 'series'):
+                for container in ('dict', 'series', 'dict_after_refit'):
                     if container == 'series' and order != tuple(sub):
+                        continue
+                    if container == 'dict_after_refit' and (order != tuple(sub) or sub != subsets[-1]):
                         continue
                     tag = 'd%d.given_%s.%s' % (d, ''.join(order), container)
                     I = engine.new_interp()
@@ -92,7 +94,23 @@ def build(chk):
                     G = I.resolve(uni.CLASSES['GaussianUnivariate'][0])
 
                     def body(c, I=I, labels=labels, order=order, container=container):
-                        m = gm.fit_model(I, c, labels, G)
+                        m0 = None
+                        if container == 'dict_after_refit':
+                            # history: the same object was fitted on another table with the same labels and has already
+                            # produced a conditional sample for the same conditioning set
+                            n0 = Sym(ir.var('n0', 'I'))
+                            c.assume(ir.ge(n0.t, 2))
+                            X0 = pdmodel.Frame(list(labels), {l: Lane(ir.var('y_%s@i' % l), n0) for l in labels}, n0)
+                            for l in labels:
+                                c.assume(ir.gt(ir.uf('n_unique', [ir.var('y_%s' % l, 'U')], 'I'), 1))
+                            m0 = I.call_qual(GM, [], {'distribution': G})
+                            I.call_method(m0, 'fit', [X0])
+                            I.call_method(m0, 'sample', [Sym(ir.var('k0', 'I'))],
+                                          {'conditions': {l: Sym(ir.var('c0_%s' % l)) for l in order}})
+                            State.rng = ir.var('G0', 'U')
+                            container = 'dict'
+                            c.out['ev0'] = len(c.events)
+                        m = gm.fit_model(I, c, labels, G, model=m0)
                         c.assume(ir.ge(K, 1))
                         if container == 'dict':
                             cond = {l: Sym(cval(l)) for l in order}
@@ -169,7 +187,7 @@ def build(chk):
                                    function=fq, clause='all training columns, in order', replay=cond_replay))
                         if not okschema:
                             continue
-                        draws = [e for e in r.events if e.kind == 'mvn_draw']
+                        draws = [e for e in r.events[st.get('ev0', 0):] if e.kind == 'mvn_draw']
                         chk.add(Ob('C12.%s.one_normal_draw.%d' % (tag, kr), [], ir.const(len(draws) == 1),
                                    backends=('syntactic',), function=GM + '._get_normal_samples',
                                    clause='one conditional normal draw'))
